@@ -77,6 +77,11 @@ CHECKS['C12'] = ('exploration', '§5 C12',
     'Token strings are joined by single spaces, mutations are single-point; determinism is checked between identical feed histories in two processes; error texts are only compared between runs.',
     'bounded-exhaustive enumeration of source texts with a totality / effect-freedom / determinism oracle')
 
+CHECKS['C02'] = ('model_checking', '§5 C02',
+    'Four exhaustively enumerated families compared in lock-step with a reference evaluator written in Python (mc/model/lang.py): (1) every operator string of <=2 (thorough: <=3) binary operators over all 17 operators x 5 unary prefixes, evaluated on a trace struct whose operator overloads record the parse, against a reference precedence climber; (2) every well-typed term of the core fragment (int/float/str/bool/Optional/Sequence/tuple/struct/union, if/else, &&/||, let-lambda, calls, member access, error leaves) up to a size bound over an edge-value pool, rendered both with operators and with the equivalent function-call sugar; (3) evaluation-order, exactly-once and short-circuit programs observed through the recording writer; (4) declaration programs (every ordering / shadowing / forward-reference arrangement of a small declaration alphabet). Value or error class must equal the reference on every term.',
+    'Terms outside the fragment (generators, mappings, stdlib written in xray) are covered by C15-C20; powers above 2^256 and the sign of an integer zero divided by a negative long are skipped as unspecified; chained comparison mixes of < and > are skipped (grammar ambiguity with turbofish).',
+    'bounded-exhaustive term enumeration vs reference evaluator')
+
 NA = {
 }
 
